@@ -13,15 +13,19 @@ from . import chx_props
 
 POOL = [
     (["H", "H"], ["H2"], 100), (["H2", "CR"], ["H", "H"], 101), (["H", "C"], ["CH"], 100), (["CH", "O"], ["CO", "H"], 100), (["CO"], ["C", "O"], 100), (["H", "H"], ["H2"], 100), (["e-", "H+"], ["H"], 100),
+    # same species as entry 3 on another temperature window, and as entry 4 with another type: not duplicates
+    (["CH", "O"], ["CO", "H"], 100, 300.0, 800.0), (["CO"], ["C", "O"], 102),
 ]
+WINDOW = lambda i: (POOL[i][3], POOL[i][4]) if len(POOL[i]) > 3 else (-1.0, -1.0)
 LAUNCH = "import sys; from naunet.console import main; sys.exit(main())"
 
 
 def _line(i, idx):
-    r, p, t = POOL[i]
+    r, p, t = POOL[i][:3]
+    lo, hi = WINDOW(i)
     rs = [f"{x:>12}" for x in r + [""] * (3 - len(r))]
     ps = [f"{x:>12}" for x in p + [""] * (5 - len(p))]
-    return ",".join([f"{idx:<5}", *rs, *ps, f"{1.0 + i:10.3e}", f"{0:10.3e}", f"{0:10.3e}", f"{-1:9.2f}", f"{-1:9.2f}", f"{t:>4}", f"{'unknown':>8}"])
+    return ",".join([f"{idx:<5}", *rs, *ps, f"{1.0 + i:10.3e}", f"{0:10.3e}", f"{0:10.3e}", f"{lo:9.2f}", f"{hi:9.2f}", f"{t:>4}", f"{'unknown':>8}"])
 
 
 def _read(path):
@@ -30,13 +34,13 @@ def _read(path):
         if not l.strip():
             continue
         f = [x.strip() for x in l.split(",")]
-        out.append((sorted(x for x in f[1:4] if x and x != "CR"), sorted(x for x in f[4:9] if x), int(f[-2])))
+        out.append((sorted(x for x in f[1:4] if x and x != "CR"), sorted(x for x in f[4:9] if x), int(f[-2]), float(f[-4]), float(f[-3])))
     return out
 
 
 def cli_cases():
-    base = [0, 1, 2, 3, 4, 5, 6]
-    key = lambda i: (sorted(x for x in POOL[i][0] if x != "CR"), sorted(POOL[i][1]), POOL[i][2])
+    base = list(range(len(POOL)))
+    key = lambda i: (sorted(x for x in POOL[i][0] if x != "CR"), sorted(POOL[i][1]), POOL[i][2], *WINDOW(i))
     spec = lambda i: set(x for x in POOL[i][0] + POOL[i][1] if x != "CR")
     cases = []
     cases.append(("plain", [], [key(i) for i in base]))
@@ -53,8 +57,8 @@ def cli_cases():
     # every neutral gas species + desorption of every surface species *then* present (appended in set order)
     kept = [key(i) for i in base]
     neutral = sorted(x for x in set().union(*[spec(i) for i in base]) if not x.endswith(("+", "-")))
-    freeze = [([x], ["#" + x], 200) for x in neutral]
-    des = lambda code: [(["#" + x], [x], code) for x in neutral]
+    freeze = [([x], ["#" + x], 200, -1.0, -1.0) for x in neutral]
+    des = lambda code: [(["#" + x], [x], code, -1.0, -1.0) for x in neutral]
     cases.append(("append-depletion", ["--append-depletion"], (kept, freeze)))
     cases.append(("append-thermal-desorption-no-ice", ["--append-thermal-desorption"], kept))
     cases.append(("append-depletion+thermal", ["--append-depletion", "--append-thermal-desorption"], (kept, freeze + des(201))))
